@@ -150,5 +150,89 @@ func willTimerFacts(repo string, w *bytes.Buffer) error {
 		return true
 	})
 	defStrings(w, "how `unregisterClient` makes the will's signal channel", "willSignalChannel", []string{buf})
+
+	// every OTHER place of server/server.go that touches the table of pending wills (`srv.willMessage`) or signals a
+	// will: "function: innermost statement", in source order. Model/WillTimer.lean transcribes exactly these
+	// (terminate = signal(true), resume = signal(false), a discarded session on take-over = signal(true), the entry
+	// made by unregisterClient); a new site — or one that starts to delete entries or publish by itself — is a change
+	// of the protocol between the goroutine and the rest of the broker that the model has to follow.
+	var sites, hs []string
+	for _, d := range f.Decls {
+		fd, ok := d.(*ast.FuncDecl)
+		if !ok || fd.Body == nil {
+			continue
+		}
+		var visit func(stmts []ast.Stmt)
+		mentions := func(n ast.Node) bool {
+			t := src(fset, n)
+			return strings.Contains(t, "willMessage") || strings.Contains(t, ".signal(")
+		}
+		var walk func(st ast.Stmt)
+		walk = func(st ast.Stmt) {
+			if st == nil || !mentions(st) {
+				return
+			}
+			if g, ok := st.(*ast.GoStmt); ok {
+				if fl, ok := g.Call.Fun.(*ast.FuncLit); ok && fl == lit {
+					return // the goroutine itself: read above, statement by statement
+				}
+			}
+			// descend into compound statements whose body (not header) carries the mention
+			switch v := st.(type) {
+			case *ast.BlockStmt:
+				visit(v.List)
+				return
+			case *ast.IfStmt:
+				hdr := (v.Init != nil && mentions(v.Init)) || mentions(v.Cond)
+				if !hdr {
+					visit(v.Body.List)
+					if v.Else != nil {
+						walk(v.Else)
+					}
+					return
+				}
+			case *ast.ForStmt:
+				visit(v.Body.List)
+				return
+			case *ast.RangeStmt:
+				visit(v.Body.List)
+				return
+			case *ast.DeferStmt:
+				if fl, ok := v.Call.Fun.(*ast.FuncLit); ok {
+					visit(fl.Body.List)
+					return
+				}
+			case *ast.SwitchStmt:
+				for _, c := range v.Body.List {
+					visit(c.(*ast.CaseClause).Body)
+				}
+				return
+			case *ast.SelectStmt:
+				for _, c := range v.Body.List {
+					visit(c.(*ast.CommClause).Body)
+				}
+				return
+			}
+			// a statement that contains the goroutine (wm := …; go func…) is split by its children where possible
+			if ifs, ok := st.(*ast.IfStmt); ok && strings.Contains(src(fset, ifs.Body), "go func") {
+				visit(ifs.Body.List)
+				return
+			}
+			t := src(fset, st)
+			if strings.Contains(t, "willMessage: make(") {
+				return // the table's creation in the constructor
+			}
+			sites = append(sites, fd.Name.Name+": "+t)
+			hs = append(hs, fmt.Sprint(fnv64(fd.Name.Name+": "+t)))
+		}
+		visit = func(stmts []ast.Stmt) {
+			for _, st := range stmts {
+				walk(st)
+			}
+		}
+		visit(fd.Body.List)
+	}
+	defStrings(w, "every other statement of server/server.go that touches `srv.willMessage` or signals a will (\"function: statement\"), source order", "willSites", sites)
+	fmt.Fprintf(w, "/-- FNV-1a-64 fingerprints of `willSites`, same order -/\ndef willSitesH : List Nat :=\n  [%s]\n\n", strings.Join(hs, ", "))
 	return nil
 }
